@@ -1,6 +1,17 @@
 import NmVerif.NN.PoolLemmas
+import NmVerif.NN.PoolReduceLemmas
 import NmVerif.NN.ConvLemmas
 import NmVerif.NN.Conv2dLemmas
+import NmVerif.NN.ComposeLemmas
+import NmVerif.NN.LinearLemmas
+import NmVerif.NN.LinearTensordot
+import NmVerif.NN.NormLemmas
+import NmVerif.NN.BatchNormLemmas
+import NmVerif.NN.AxisLemmas
+import NmVerif.NN.ChanLemmas
+import NmVerif.NN.GroupNormLemmas
+import NmVerif.NN.CosineLemmas
+import NmVerif.NN.BilinearLemmas
 /-
   C17 — neural-network routines equal their reference (PyTorch) definitions.
 
@@ -80,6 +91,684 @@ theorem pool_window_in_bounds (lead li : List Nat) (H W kh kw sh sw i j : Nat) (
   simp at hmem
 
 example : PoolDom 5 3 2 ∧ poolExtent 5 3 2 true = 2 := by decide
+
+/-! ## pooling: the result (reducer applied to the window) -/
+
+open NmVerif.Reduce in
+/-- **max_pool2d = left fold of `maximum` over exactly the window, first element as the initial value.**
+    For an input `lead ++ [H, W]` of ANY element type with a `<`, every kernel that fits, every stride, floor and ceil
+    mode: the view exists, has the PyTorch shape, and the element at `li ++ [i, j]` is
+    `foldl maximum w₀ [w₁, …]` over the values at the reference (clipped) window `specWindow` in row-major order
+    (`maximum t u = t > u ? t : u`, `foldFirst … none` = start from the first element — no initial value enters, which
+    is what fixes/C17-max-pool-initial repaired) — and it is defined (the window is never empty). -/
+theorem max_pool_eq_window_fold {α : Type} [LT α] [DecidableRel (α := α) (· < ·)] (x : Arr α) (lead li : List Nat)
+    (H W kh kw sh sw i j : Nat) (ceil : Bool) (hx : x.shape = lead ++ [H, W])
+    (hH : PoolDom H kh sh) (hW : PoolDom W kw sw)
+    (hidx : InShape (li ++ [i, j]) (lead ++ [poolExtent H kh sh ceil, poolExtent W kw sw ceil]))
+    (hli : InShape li lead) :
+    ∃ v, maxPool2d x [kh, kw] [sh, sw] ceil = some v ∧
+      v.shape = lead ++ [poolOutSpec H kh sh ceil, poolOutSpec W kw sw ceil] ∧
+      v.get (li ++ [i, j]) = foldFirst maximum none ((specWindow li H W kh kw sh sw i j).map x.get) ∧
+      ∃ y, v.get (li ++ [i, j]) = some y := by
+  have hij := inShape_last2 hli hidx
+  have h1 := pool_start_lt hH hij.1
+  have h2 := pool_start_lt hW hij.2
+  have hel := maxPoolElem_eq hli hH.1 hW.1 h1 h2 x hx
+  refine ⟨⟨lead ++ [poolOutSpec H kh sh ceil, poolOutSpec W kw sw ceil], maxPoolElem x [kh, kw] [sh, sw]⟩, ?_, rfl, hel, ?_⟩
+  · simp only [maxPool2d, hx, pool_out_shape_eq_formula lead H W kh kw sh sw ceil hH hW, Option.map_some]
+  · show ∃ y, maxPoolElem x [kh, kw] [sh, sw] (li ++ [i, j]) = some y
+    rw [hel]
+    obtain ⟨win, hw, hne, _⟩ := pool_window_in_bounds lead li H W kh kw sh sw i j ceil hH hW hidx hli
+    rw [pool_elem_eq_window_reduce lead li H W kh kw sh sw i j ceil hH hW hidx hli, Option.some.injEq] at hw
+    exact foldFirst_some_of_ne _ (by rw [hw]; simpa using hne)
+
+/-- non-vacuity: 3×3 input `[[-5,-7,-6],[-9,-8,-4],[-3,-2,-1]]` (all negative: an initial value 0 would win), kernel 2,
+    stride 2, ceil mode: windows overhang, output 2×2 = `[[-5,-4],[-2,-1]]` -/
+example :
+    let x : Arr Int := ⟨[3, 3], fun d => match d with | [a, b] => [-5, -7, -6, -9, -8, -4, -3, -2, -1].getD (3 * a + b) 0 | _ => 0⟩
+    (maxPool2d x [2, 2] [2, 2] true).map (fun v => (v.shape, (allIdx v.shape).map v.get))
+      = some ([2, 2], [some (-5), some (-4), some (-2), some (-1)]) := by decide
+
+open NmVerif.Reduce in
+/-- over the integers (and so for integer-valued data) that fold is the greatest element of the window -/
+theorem max_pool_int_is_greatest (x : Arr Int) (lead li : List Nat)
+    (H W kh kw sh sw i j : Nat) (ceil : Bool) (hx : x.shape = lead ++ [H, W])
+    (hH : PoolDom H kh sh) (hW : PoolDom W kw sw)
+    (hidx : InShape (li ++ [i, j]) (lead ++ [poolExtent H kh sh ceil, poolExtent W kw sw ceil]))
+    (hli : InShape li lead) :
+    ∃ v m, maxPool2d x [kh, kw] [sh, sw] ceil = some v ∧ v.get (li ++ [i, j]) = some m ∧
+      (∃ p ∈ specWindow li H W kh kw sh sw i j, x.get p = m) ∧
+      ∀ p ∈ specWindow li H W kh kw sh sw i j, x.get p ≤ m := by
+  obtain ⟨v, hv, _, hel, _⟩ := max_pool_eq_window_fold x lead li H W kh kw sh sw i j ceil hx hH hW hidx hli
+  cases hwin : specWindow li H W kh kw sh sw i j with
+  | nil =>
+    obtain ⟨win, hw, hne, _⟩ := pool_window_in_bounds lead li H W kh kw sh sw i j ceil hH hW hidx hli
+    rw [pool_elem_eq_window_reduce lead li H W kh kw sh sw i j ceil hH hW hidx hli, Option.some.injEq] at hw
+    exact absurd (hw ▸ hwin) hne
+  | cons p0 rest =>
+    rw [hwin] at hel
+    obtain ⟨hmem, hge⟩ := foldl_maximum_int (rest.map x.get) (x.get p0)
+    refine ⟨v, _, hv, hel, ?_, ?_⟩
+    · have : (rest.map x.get).foldl maximum (x.get p0) ∈ (p0 :: rest).map x.get := by simpa using hmem
+      obtain ⟨p, hp, hpe⟩ := List.mem_map.1 this
+      exact ⟨p, hp, hpe⟩
+    · intro p hp
+      exact hge (x.get p) (by simpa using List.mem_map_of_mem (f := x.get) hp)
+
+example : PoolDom 3 2 2 ∧ InShape ([] ++ [1, 1]) ([] ++ [poolExtent 3 2 2 true, poolExtent 3 2 2 true]) := by decide
+
+open NmVerif.Reduce in
+/-- **avg_pool2d = (sum of the window, folded from its first element in row-major order) / (number of window
+    elements).**  `add` and `divn` (division by a count) are abstract operations of the promoted element type.  The
+    divisor the code uses (`index::product` of the shape of the *clipped* slice) is the number of elements actually
+    inside the input: `(min(s_h·i + k_h, H) − s_h·i) · (min(s_w·j + k_w, W) − s_w·j)` — under ceil-mode overhang it is
+    smaller than `k_h·k_w`. -/
+theorem avg_pool_eq_window_mean {α : Type} (add : α → α → α) (divn : α → Nat → α) (x : Arr α) (lead li : List Nat)
+    (H W kh kw sh sw i j : Nat) (ceil : Bool) (hx : x.shape = lead ++ [H, W])
+    (hH : PoolDom H kh sh) (hW : PoolDom W kw sw)
+    (hidx : InShape (li ++ [i, j]) (lead ++ [poolExtent H kh sh ceil, poolExtent W kw sw ceil]))
+    (hli : InShape li lead) :
+    ∃ v, avgPool2d add divn x [kh, kw] [sh, sw] ceil = some v ∧
+      v.shape = lead ++ [poolOutSpec H kh sh ceil, poolOutSpec W kw sw ceil] ∧
+      v.get (li ++ [i, j]) = (foldFirst add none ((specWindow li H W kh kw sh sw i j).map x.get)).map
+        (fun S => divn S ((min (sh * i + kh) H - sh * i) * (min (sw * j + kw) W - sw * j))) ∧
+      (specWindow li H W kh kw sh sw i j).length = (min (sh * i + kh) H - sh * i) * (min (sw * j + kw) W - sw * j) ∧
+      ∃ y, v.get (li ++ [i, j]) = some y := by
+  have hij := inShape_last2 hli hidx
+  have h1 := pool_start_lt hH hij.1
+  have h2 := pool_start_lt hW hij.2
+  have hel := avgPoolElem_eq add divn hli hH.1 hW.1 h1 h2 x hx
+  rw [specWindow_length] at hel
+  refine ⟨⟨lead ++ [poolOutSpec H kh sh ceil, poolOutSpec W kw sw ceil], avgPoolElem add divn x [kh, kw] [sh, sw]⟩,
+    ?_, rfl, hel, specWindow_length .., ?_⟩
+  · simp only [avgPool2d, hx, pool_out_shape_eq_formula lead H W kh kw sh sw ceil hH hW, Option.map_some]
+  · show ∃ y, avgPoolElem add divn x [kh, kw] [sh, sw] (li ++ [i, j]) = some y
+    rw [hel]
+    obtain ⟨win, hw, hne, _⟩ := pool_window_in_bounds lead li H W kh kw sh sw i j ceil hH hW hidx hli
+    rw [pool_elem_eq_window_reduce lead li H W kh kw sh sw i j ceil hH hW hidx hli, Option.some.injEq] at hw
+    obtain ⟨S, hS⟩ := foldFirst_some_of_ne add (l := (specWindow li H W kh kw sh sw i j).map x.get) (by rw [hw]; simpa using hne)
+    exact ⟨_, by rw [hS]; rfl⟩
+
+/-- non-vacuity: 3×3 input `1..9`, kernel 2, stride 2, ceil mode, rational pairs `(numerator, denominator)` as the
+    promoted type: the overhanging windows are divided by 2, 2 and 1, not by 4 -/
+example :
+    let x : Arr (Int × Nat) := ⟨[3, 3], fun d => match d with | [a, b] => ((3 * a + b + 1 : Nat), 1) | _ => (0, 1)⟩
+    (avgPool2d (fun p q => (p.1 + q.1, 1)) (fun p n => (p.1, n)) x [2, 2] [2, 2] true).map
+        (fun v => (v.shape, (allIdx v.shape).map v.get))
+      = some ([2, 2], [some (12, 4), some (9, 2), some (15, 2), some (9, 1)]) := by decide
+
+/-- **the divisor agrees with PyTorch's** (`avg_pool2d` without padding — nmtools has no padding argument): ATen divides
+    by `pool_size = (min(h₀ + k_h, H + p) − h₀)(min(w₀ + k_w, W + p) − w₀)` when `count_include_pad`, and by the clipped
+    window size otherwise; at `p = 0` both are the number of window elements the code divides by. -/
+theorem avg_pool_divisor_eq_torch (li : Idx) (H W kh kw sh sw i j : Nat) (hi : sh * i < H) (hj : sw * j < W) :
+    ((specWindow li H W kh kw sh sw i j).length : Int) = torchCountIncl H kh sh 0 i * torchCountIncl W kw sw 0 j ∧
+    ((specWindow li H W kh kw sh sw i j).length : Int) = torchCountExcl H kh sh 0 i * torchCountExcl W kw sw 0 j := by
+  rw [specWindow_length, Int.natCast_mul]
+  have a1 : ((min (sh * i + kh) H - sh * i : Nat) : Int) = torchCountIncl H kh sh 0 i := by unfold torchCountIncl; omega
+  have a2 : ((min (sw * j + kw) W - sw * j : Nat) : Int) = torchCountIncl W kw sw 0 j := by unfold torchCountIncl; omega
+  have b1 : ((min (sh * i + kh) H - sh * i : Nat) : Int) = torchCountExcl H kh sh 0 i := by unfold torchCountExcl; omega
+  have b2 : ((min (sw * j + kw) W - sw * j : Nat) : Int) = torchCountExcl W kw sw 0 j := by unfold torchCountExcl; omega
+  exact ⟨by rw [a1, a2], by rw [b1, b2]⟩
+
+example : ((specWindow [] 3 3 2 2 2 2 1 0).length : Int) = 2 ∧ torchCountIncl 3 2 2 0 1 * torchCountIncl 3 2 2 0 0 = 2 := by decide
+
+/-! ## softmax / softmin (plumbing over an abstract element type with opaque `exp`, `max`, `−`, `+`, `/`) -/
+
+open NmVerif.Reduce in
+/-- **softmax over any axis** (negative axes count from the end), any rank, any positive extents, ANY element type and
+    element operations: the `view::softmax` composition (`reduce_maximum` keepdims → `subtract` → `exp` → `reduce_add`
+    keepdims → `divide`, both keepdims results broadcast back over the axis) exists, has the shape of the input, and the
+    element at `i` is `exp(x[i] − M) / S` where, with `L = lineOf shape axis i` = the indices sharing every coordinate
+    of `i` except the one on the axis (that coordinate running `0 .. n−1`, in this order),
+    `M` is the left fold of `max` over `x[L]` and `S` the left fold of `+` over `exp(x[k] − M)`, `k ∈ L` — exactly those
+    elements enter the normalising sum, each once.  Every element is defined. -/
+theorem softmax_eq_def {α : Type} (mx sub add div : α → α → α) (exp : α → α) (x : Arr α) (axis : Int)
+    (hs : Pos x.shape) (hv : ValidAxis x.shape.length axis) :
+    ∃ v, softmax mx sub add div exp (lift x) axis = some v ∧ v.shape = x.shape ∧
+      ∀ i, InShape i x.shape →
+        (v.get i = (foldFirst mx none ((lineOf x.shape (normAxis x.shape.length axis) i).map x.get)).bind fun M =>
+          (foldFirst add none ((lineOf x.shape (normAxis x.shape.length axis) i).map fun k => exp (sub (x.get k) M))).map
+            fun S => div (exp (sub (x.get i) M)) S) ∧
+        ∃ y, v.get i = some y := by
+  obtain ⟨v, h1, h2, h3⟩ := softmax_core mx sub add div exp (den_lift x) hs axis hv
+  refine ⟨v, h1, h2, fun i hi => ?_⟩
+  have hL := grp_single_eq_lineOf hi (NmVerif.Reduce.normAxis_lt hv)
+  have he := h3 i hi
+  rw [hL] at he
+  refine ⟨he, ?_⟩
+  have hne : lineOf x.shape (normAxis x.shape.length axis) i ≠ [] := by rw [← hL]; exact grp_ne_nil hi
+  obtain ⟨M, hM⟩ := foldFirst_map_some mx x.get hne
+  obtain ⟨S, hS⟩ := foldFirst_map_some add (fun k => exp (sub (x.get k) M)) hne
+  exact ⟨_, by rw [he, hM, Option.bind_some, hS]; rfl⟩
+
+/-- non-vacuity: shape (2,3), axis −1 (= 1), index (1,2): the line is `[(1,0), (1,1), (1,2)]` -/
+example : Pos [2, 3] ∧ Reduce.ValidAxis 2 (-1) ∧ Reduce.normAxis 2 (-1) = 1 ∧ InShape [1, 2] [2, 3] ∧
+    lineOf [2, 3] 1 [1, 2] = [[1, 0], [1, 1], [1, 2]] ∧ lineOf [2, 3] 0 [1, 2] = [[0, 2], [1, 2]] := by decide
+
+/-- the composition evaluated on integers with `exp = id`, `/ = Int division`: row `[1, 5, 2]`, axis −1 → `M = 5`,
+    terms `[-4, 0, -3]`, `S = -7`, quotients `(-4)/(-7), 0/(-7), (-3)/(-7)` -/
+example :
+    let x : Arr Int := ⟨[1, 3], fun d => match d with | [_, b] => [1, 5, 2].getD b 0 | _ => 0⟩
+    (softmax Reduce.maximum (· - ·) (· + ·) (· / ·) id (lift x) (-1)).map (fun v => (v.shape, (allIdx v.shape).map v.get))
+      = some ([1, 3], [some ((-4) / (-7)), some (0 / (-7)), some ((-3) / (-7))]) := by decide
+
+open NmVerif.Reduce in
+/-- **softmin over any axis** = `softmax(negative(x))`: the same statement with every `x[k]` replaced by `neg x[k]` -/
+theorem softmin_eq_def {α : Type} (mx sub add div : α → α → α) (exp neg : α → α) (x : Arr α) (axis : Int)
+    (hs : Pos x.shape) (hv : ValidAxis x.shape.length axis) :
+    ∃ v, softmin mx sub add div exp neg (lift x) axis = some v ∧ v.shape = x.shape ∧
+      ∀ i, InShape i x.shape →
+        (v.get i = (foldFirst mx none ((lineOf x.shape (normAxis x.shape.length axis) i).map fun k => neg (x.get k))).bind fun M =>
+          (foldFirst add none ((lineOf x.shape (normAxis x.shape.length axis) i).map fun k => exp (sub (neg (x.get k)) M))).map
+            fun S => div (exp (sub (neg (x.get i)) M)) S) ∧
+        ∃ y, v.get i = some y := by
+  obtain ⟨v, h1, h2, h3⟩ := softmax_core mx sub add div exp (den_un neg (den_lift x)) hs axis hv
+  refine ⟨v, h1, h2, fun i hi => ?_⟩
+  have hL := grp_single_eq_lineOf hi (NmVerif.Reduce.normAxis_lt hv)
+  have he := h3 i hi
+  rw [hL] at he
+  refine ⟨he, ?_⟩
+  have hne : lineOf x.shape (normAxis x.shape.length axis) i ≠ [] := by rw [← hL]; exact grp_ne_nil hi
+  obtain ⟨M, hM⟩ := foldFirst_map_some mx (fun k => neg (x.get k)) hne
+  obtain ⟨S, hS⟩ := foldFirst_map_some add (fun k => exp (sub (neg (x.get k)) M)) hne
+  exact ⟨_, by rw [he, hM, Option.bind_some, hS]; rfl⟩
+
+example : Pos [2, 2, 2] ∧ Reduce.ValidAxis 3 (-3) ∧ Reduce.normAxis 3 (-3) = 0 ∧
+    lineOf [2, 2, 2] 0 [1, 0, 1] = [[0, 0, 1], [1, 0, 1]] := by decide
+
+open NmVerif.Reduce in
+/-- **the stabilised form is the textbook formula** `exp(x[i]) / Σ_{k ∈ L} exp(x[k])` for any element operations that
+    satisfy the three laws real arithmetic has: `exp(a − m) = exp(a)/exp(m)`, `a/c + b/c = (a+b)/c`,
+    `(a/c)/(b/c) = a/b`.  (Floating-point arithmetic satisfies them only approximately: that is the harness's tolerance.) -/
+theorem softmax_eq_textbook {α : Type} (mx sub add div : α → α → α) (exp : α → α) (x : Arr α) (axis : Int)
+    (hs : Pos x.shape) (hv : ValidAxis x.shape.length axis)
+    (hexp : ∀ a m, exp (sub a m) = div (exp a) (exp m))
+    (hadd : ∀ a b c, add (div a c) (div b c) = div (add a b) c)
+    (hdiv : ∀ a b c, div (div a c) (div b c) = div a b) :
+    ∃ v, softmax mx sub add div exp (lift x) axis = some v ∧ v.shape = x.shape ∧
+      ∀ i, InShape i x.shape →
+        v.get i = (foldFirst add none ((lineOf x.shape (normAxis x.shape.length axis) i).map fun k => exp (x.get k))).map
+          fun S => div (exp (x.get i)) S := by
+  obtain ⟨v, h1, h2, h3⟩ := softmax_eq_def mx sub add div exp x axis hs hv
+  refine ⟨v, h1, h2, fun i hi => ?_⟩
+  obtain ⟨he, _⟩ := h3 i hi
+  have hL := grp_single_eq_lineOf (s := x.shape) hi (NmVerif.Reduce.normAxis_lt hv)
+  have hne : lineOf x.shape (normAxis x.shape.length axis) i ≠ [] := by rw [← hL]; exact grp_ne_nil hi
+  obtain ⟨M, hM⟩ := foldFirst_map_some mx x.get hne
+  rw [he, hM, Option.bind_some]
+  have hmap : (lineOf x.shape (normAxis x.shape.length axis) i).map (fun k => exp (sub (x.get k) M))
+      = ((lineOf x.shape (normAxis x.shape.length axis) i).map (fun k => exp (x.get k))).map (div · (exp M)) := by
+    rw [List.map_map]; apply List.map_congr_left; intro k _; exact hexp _ _
+  rw [hmap, foldFirst_div_distrib add div (exp M) (fun a b => hadd a b (exp M)), Option.map_map]
+  congr 1
+  funext S
+  simp only [Function.comp, hexp, hdiv]
+
+/-! ## linear -/
+
+/-- **linear: `y[p, o] = Σ_i x[p, i] · w[o, i] (+ b[o])`** for an input `lead ++ [I]` of any rank, a weight `[O, I]` and an
+    optional bias `[O]`, any positive extents, abstract `add` / `mul`: `view::linear` = `tensordot(input, weight,
+    ((-1),(-1)))` (C16 model: transpose, reshape, broadcast multiply, `sum` over the last axis) `+ bias` (C06/C07
+    broadcast) exists, has the shape `lead ++ [O]`, and the element at `p ++ [o]` is the left fold of `add`, from the
+    first product, over exactly the products `x[p, i] · w[o, i]`, `i = 0 .. I−1` in this order, with `b[o]` added to the
+    finished sum. -/
+theorem linear_eq_def {α : Type} (add mul : α → α → α) (x w : Arr α) (bias : Option (Arr α)) (lead : Shape)
+    (I O : Nat) (hx : x.shape = lead ++ [I]) (hw : w.shape = [O, I]) (hb : ∀ b, bias = some b → b.shape = [O])
+    (hp : Pos (lead ++ [O])) :
+    ∃ v, linear add mul x w bias = some v ∧ v.shape = lead ++ [O] ∧ ∀ p o, InShape p lead → o < O →
+      v.get (p ++ [o]) = match bias with
+        | none => Reduce.foldFirst add none ((List.range I).map fun i => mul (x.get (p ++ [i])) (w.get [o, i]))
+        | some b => (Reduce.foldFirst add none ((List.range I).map fun i => mul (x.get (p ++ [i])) (w.get [o, i]))).map
+                      (fun S => add S (b.get [o])) := by
+  obtain ⟨r, hr1, hr2, hr3⟩ := tensordot_last_terms lead I O (hp O (by simp))
+  rw [← hx, ← hw] at hr1
+  cases bias with
+  | none =>
+    obtain ⟨v, h1, h2, h3⟩ := linear_rel_nobias add mul x w r hr1
+    refine ⟨v, h1, h2.trans hr2, fun p o hpi ho => ?_⟩
+    rw [h3, hr3 p o hpi ho, List.map_map]
+    rfl
+  | some b =>
+    obtain ⟨v, h1, h2, h3⟩ := linear_rel_bias add mul x w b r lead O hr1 hr2 hp (hb b rfl)
+    refine ⟨v, h1, h2, fun p o hpi ho => ?_⟩
+    rw [h3 p o hpi ho, hr3 p o hpi ho, List.map_map]
+    rfl
+
+/-- when the contracted extent is positive every element is defined -/
+theorem linear_defined {α : Type} (add mul : α → α → α) (x w : Arr α) (bias : Option (Arr α)) (lead : Shape)
+    (I O : Nat) (hx : x.shape = lead ++ [I]) (hw : w.shape = [O, I]) (hb : ∀ b, bias = some b → b.shape = [O])
+    (hp : Pos (lead ++ [O])) (hI : 0 < I) :
+    ∃ v, linear add mul x w bias = some v ∧ ∀ p o, InShape p lead → o < O → ∃ y, v.get (p ++ [o]) = some y := by
+  obtain ⟨v, h1, _, h3⟩ := linear_eq_def add mul x w bias lead I O hx hw hb hp
+  refine ⟨v, h1, fun p o hpi ho => ?_⟩
+  obtain ⟨S, hS⟩ := foldFirst_map_some add (fun i => mul (x.get (p ++ [i])) (w.get [o, i]))
+    (l := List.range I) (by intro h; have := congrArg List.length h; simp at this; omega)
+  rw [h3 p o hpi ho]
+  cases bias with
+  | none => exact ⟨S, hS⟩
+  | some b => exact ⟨add S (b.get [o]), by simp only [hS]; rfl⟩
+
+/-- non-vacuity: input (2,3), weight (2,3), bias (2): `y[1,0] = (x[1,0]·w[0,0] + x[1,1]·w[0,1] + x[1,2]·w[0,2]) + b[0]`
+    = `(4·1 + 5·2 + 6·3) + 10` -/
+example :
+    let x : Arr Int := ⟨[2, 3], fun d => match d with | [a, b] => (3 * a + b + 1 : Nat) | _ => 0⟩
+    let w : Arr Int := ⟨[2, 3], fun d => match d with | [a, b] => (3 * a + b + 1 : Nat) | _ => 0⟩
+    let b : Arr Int := ⟨[2], fun d => match d with | [a] => (10 * (a + 1) : Nat) | _ => 0⟩
+    (linear (· + ·) (· * ·) x w (some b)).map (fun v => (v.shape, v.get [1, 0])) = some ([2, 2], some 42) := by decide
+
+/-! ## normalisations -/
+
+open NmVerif.Reduce in
+/-- **layer_norm: which elements enter the mean and the variance, and what is done with them.**  Input `lead ++ ns`
+    of any rank, weight and bias of shape `ns` (the normalised trailing axes, any number of them), abstract element
+    operations.  The `view::layer_norm` composition (`mean` and `var` over the axes `−k .. −1` with keepdims, both
+    broadcast back, `sqrt(var + eps)`, divide, weight, bias) exists, keeps the shape, and the element at `p ++ q` is
+    `((x[p,q] − μ) / sqrt(V/n + eps)) · w[q] + b[q]` where the statistics are taken over exactly the `n = ∏ ns` elements
+    `x[p, r]`, `r` running over all of `ns` in row-major order: `μ = (Σ x[p,r]) / n`, `V = Σ |x[p,r] − μ|²`
+    (`normAt`).  Every element is defined. -/
+theorem layer_norm_eq_def {α : Type} (add sub mul div : α → α → α) (sqabs sqrt : α → α) (divn : α → Nat → α) (eps : α)
+    (x w b : Arr α) (lead ns : Shape) (hx : x.shape = lead ++ ns) (hw : w.shape = ns) (hb : b.shape = ns)
+    (hp : Pos (lead ++ ns)) :
+    ∃ v, layerNorm add sub mul div sqabs sqrt divn eps x w b = some v ∧ v.shape = lead ++ ns ∧
+      ∀ p q, InShape p lead → InShape q ns →
+        (v.get (p ++ q) = (normAt add sub div sqabs sqrt divn eps x.get ((allIdx ns).map (p ++ ·)) (p ++ q)).map
+          fun y => add (mul y (w.get q)) (b.get q)) ∧
+        ∃ y, v.get (p ++ q) = some y := by
+  have hlen : x.shape.length = lead.length + ns.length := by rw [hx]; simp
+  have hpx : Pos x.shape := by rw [hx]; exact hp
+  have hva : ValidAxes x.shape.length (some (trailingAxes w.shape.length)) := by
+    rw [hlen, hw]; exact validAxes_trailing _ _
+  obtain ⟨nrm, hn1, hn2, hn3⟩ := normCore_spec add sub div sqabs sqrt divn eps x (trailingAxes w.shape.length) hpx hva
+  have hdrop : (lead ++ ns).drop lead.length = ns := List.drop_left
+  have hbr : broadcastShape2 (lead ++ ns) ns = some (lead ++ ns) := by
+    have := bshape_trailing (lead ++ ns) lead.length; rwa [hdrop] at this
+  have hpn : Pos ns := by have := pos_drop hp lead.length; rwa [hdrop] at this
+  obtain ⟨pm, hm1, hm2, hm3⟩ := bin_spec mul nrm (lift w) (lead ++ ns) (by rw [hn2]; exact hpx)
+    (by show Pos w.shape; rw [hw]; exact hpn) (by show broadcastShape2 nrm.shape w.shape = _; rw [hn2, hx, hw]; exact hbr)
+  obtain ⟨v, ha1, ha2, ha3⟩ := bin_spec add pm (lift b) (lead ++ ns) (by rw [hm2]; exact hp)
+    (by show Pos b.shape; rw [hb]; exact hpn) (by show broadcastShape2 pm.shape b.shape = _; rw [hm2, hb]; exact hbr)
+  refine ⟨v, by simp only [layerNorm, hn1, hm1, Option.bind_some]; exact ha1, ha2, fun p q hpi hq => ?_⟩
+  have hin : InShape (p ++ q) (lead ++ ns) := NN.inShape_append hpi hq
+  have hsb : specBroadcastIdx ns (p ++ q) = q := by
+    have := sbi_trailing (lead ++ ns) lead.length (p ++ q) hin
+    rw [hdrop] at this
+    rw [this, ← hpi.length_eq, List.drop_left]
+  have hG : grp x.shape (axisSet x.shape.length (some (trailingAxes w.shape.length))) (p ++ q) = (allIdx ns).map (p ++ ·) := by
+    rw [hw, grp_trailing x.shape lead.length ns.length hlen (p ++ q) (by rw [hx]; exact hin), hx,
+      blockOf_append lead ns p q hpi.length_eq]
+  have hval : v.get (p ++ q) = (normAt add sub div sqabs sqrt divn eps x.get ((allIdx ns).map (p ++ ·)) (p ++ q)).map
+      fun y => add (mul y (w.get q)) (b.get q) := by
+    rw [ha3 _ hin, hm2, sbi_self _ _ hin, hm3 _ hin, hn2, hx, sbi_self _ _ hin, hn3 _ (by rw [hx]; exact hin), hG]
+    show optOp add (optOp mul _ (some (w.get (specBroadcastIdx w.shape (p ++ q))))) (some (b.get (specBroadcastIdx b.shape (p ++ q)))) = _
+    rw [hw, hb, hsb, optOp_some_right, optOp_some_right, Option.map_map]
+    rfl
+  refine ⟨hval, ?_⟩
+  have hne : (allIdx ns).map (p ++ ·) ≠ [] := by
+    rw [← hG]; exact grp_ne_nil (by rw [hx]; exact hin)
+  obtain ⟨y, hy⟩ := normAt_defined add sub div sqabs sqrt divn eps x.get (p ++ q) hne
+  exact ⟨_, by rw [hval, hy]; rfl⟩
+
+/-- non-vacuity: input (2,2,3), normalised shape (2,3): the block of `[1] ++ [0,2]` is all six `[1, r₀, r₁]` -/
+example : Pos ([2] ++ [2, 3]) ∧ InShape [1] [2] ∧ InShape [0, 2] [2, 3] ∧
+    (allIdx [2, 3]).map ([1] ++ ·) = [[1, 0, 0], [1, 0, 1], [1, 0, 2], [1, 1, 0], [1, 1, 1], [1, 1, 2]] := by decide
+
+/-- the composition evaluated on rationals-as-pairs is heavy for the kernel; on integers with `divn = Int division`,
+    `sqrt = id`, `eps = 1`: row `[1, 2, 6]` → `μ = 3`, `V = 4+1+9 = 14`, `V/3 + 1 = 5`, `(x − 3)/5·w + b` -/
+example :
+    let x : Arr Int := ⟨[1, 3], fun d => match d with | [_, b] => [1, 2, 6].getD b 0 | _ => 0⟩
+    let w : Arr Int := ⟨[3], fun _ => 10⟩
+    let b : Arr Int := ⟨[3], fun d => match d with | [a] => (a : Int) | _ => 0⟩
+    (layerNorm (· + ·) (· - ·) (· * ·) (· / ·) (fun t => t * t) id (fun (s : Int) (n : Nat) => s / (n : Int)) 1 x w b).map
+        (fun v => (v.shape, (allIdx v.shape).map v.get))
+      = some ([1, 3], [some ((1 - 3) / 5 * 10 + 0), some ((2 - 3) / 5 * 10 + 1), some ((6 - 3) / 5 * 10 + 2)]) := by decide
+
+/-- **batch_norm (inference form) on a rank-4 input `(N, C, H, W)`** with per-channel `mean`, `var`, `weight`, `bias`
+    of shape `(C)`: the composition (each parameter through `atleast_nd(·, 3)` and `moveaxis(·, −1, −3)`, i.e. shape
+    `(C,1,1)`, then element-wise with broadcasting) exists, keeps the shape, and
+    `out[n,c,h,w] = ((x[n,c,h,w] − mean[c]) / sqrt(var[c] + eps)) · weight[c] + bias[c]` — the parameters of the element's
+    own channel (axis 1), abstract element operations.  For other input ranks see `batch_norm_rank2_counterexample`. -/
+theorem batch_norm_eq_def {α : Type} (add sub mul div : α → α → α) (sqrt : α → α) (eps : α) (x m v w b : Arr α)
+    (N C H W : Nat) (hx : x.shape = [N, C, H, W]) (hm : m.shape = [C]) (hv : v.shape = [C]) (hw : w.shape = [C])
+    (hb : b.shape = [C]) (hN : 0 < N) (hC : 0 < C) (hH : 0 < H) (hW : 0 < W) :
+    ∃ r, batchNorm add sub mul div sqrt eps x m v w b = some r ∧ r.shape = [N, C, H, W] ∧
+      ∀ n c h w', n < N → c < C → h < H → w' < W →
+        r.get [n, c, h, w'] = some (add (mul (div (sub (x.get [n, c, h, w']) (m.get [c])) (sqrt (add (v.get [c]) eps)))
+          (w.get [c])) (b.get [c])) := by
+  obtain ⟨w', hw1, hw2, hw3⟩ := chanParam3 w C hw
+  obtain ⟨b', hb1, hb2, hb3⟩ := chanParam3 b C hb
+  obtain ⟨m', hm1, hm2, hm3⟩ := chanParam3 m C hm
+  obtain ⟨v', hv1, hv2, hv3⟩ := chanParam3 v C hv
+  have hsd : ∀ c, c < C → (un (fun t => sqrt (add t eps)) v').get [c, 0, 0] = some (sqrt (add (v.get [c]) eps)) := by
+    intro c hc; show (v'.get [c, 0, 0]).map _ = _; rw [hv3 c hc]; rfl
+  obtain ⟨s1, hs1, hs2, hs3⟩ := bin_chan sub (lift x) m' (fun c => m.get [c]) N C H W hN hC hH hW hx hm2 hm3
+  obtain ⟨d1, hd1, hd2, hd3⟩ := bin_chan div s1 (un (fun t => sqrt (add t eps)) v') (fun c => sqrt (add (v.get [c]) eps))
+    N C H W hN hC hH hW hs2 hv2 hsd
+  obtain ⟨p1, hp1, hp2, hp3⟩ := bin_chan mul d1 w' (fun c => w.get [c]) N C H W hN hC hH hW hd2 hw2 hw3
+  obtain ⟨r, hr1, hr2, hr3⟩ := bin_chan add p1 b' (fun c => b.get [c]) N C H W hN hC hH hW hp2 hb2 hb3
+  refine ⟨r, by simp only [batchNorm, hw1, hb1, hm1, hv1, hs1, hd1, hp1, Option.bind_some]; exact hr1, hr2,
+    fun n c h w' hn hc hh hw'' => ?_⟩
+  rw [hr3 n c h w' hn hc hh hw'', hp3 n c h w' hn hc hh hw'', hd3 n c h w' hn hc hh hw'', hs3 n c h w' hn hc hh hw'']
+  rfl
+
+example : ([1, 2, 2, 3] : Shape) = [1, 2, 2, 3] ∧ (0 < 1 ∧ 0 < 2 ∧ 0 < 2 ∧ 0 < 3) := by decide
+
+/-- known finding batch_norm.rank-not-4, as the model mirrors it: on a `(N, C) = (1, 2)` input the per-channel
+    parameters are still moved to axis −3, i.e. reshaped to `(2,1,1)`, and the result has the shape `(2,1,2)` instead
+    of `(1,2)` (PyTorch normalises axis 1 of a `(N, C)` input and keeps the shape). -/
+theorem batch_norm_rank2_counterexample :
+    let x : Arr Int := ⟨[1, 2], fun d => match d with | [_, c] => (c + 1 : Nat) | _ => 0⟩
+    let one : Arr Int := ⟨[2], fun _ => 1⟩
+    let zero : Arr Int := ⟨[2], fun _ => 0⟩
+    (batchNorm (· + ·) (· - ·) (· * ·) (· / ·) id 0 x zero one one zero).map (fun r => r.shape) = some [2, 1, 2]
+      ∧ x.shape = [1, 2] := by
+  decide
+
+/-! ## pairwise_distance -/
+
+open NmVerif.Reduce in
+/-- **pairwise_distance = ‖a − b + eps‖ over the last axis** (`vector_norm` with `pre x = |x|^ord`, `post y = y^(1/ord)`,
+    both abstract), operands of any ranks that broadcast to `lead ++ [D]`, keepdims either way: the composition exists,
+    has the shape `lead` (resp. `lead ++ [1]`), and the element at `p` (resp. `p ++ [0]`) is
+    `post (Σ_{k < D} pre ((a[p,k] − b[p,k]) + eps))` — a left fold from the first term, `k` increasing, each operand
+    read at its NumPy broadcast position. -/
+theorem pairwise_distance_eq_def {α : Type} (add sub : α → α → α) (pre post : α → α) (eps : α) (a b : Arr α)
+    (lead : Shape) (D : Nat) (keep : Bool) (hpa : Pos a.shape) (hpb : Pos b.shape)
+    (hbr : broadcastShape2 a.shape b.shape = some (lead ++ [D])) :
+    ∃ v, pairwiseDistance add sub pre post eps a b keep = some v ∧ v.shape = (if keep then lead ++ [1] else lead) ∧
+      ∀ p, InShape p lead →
+        v.get (if keep then p ++ [0] else p) =
+          (foldFirst add none ((List.range D).map fun k =>
+            pre (add (sub (a.get (specBroadcastIdx a.shape (p ++ [k]))) (b.get (specBroadcastIdx b.shape (p ++ [k])))) eps))).map post := by
+  have hpr : Pos (lead ++ [D]) := by
+    apply NmVerif.Props.C06.broadcast_pos [a.shape, b.shape] (by simp)
+      (by intro s hs; simp at hs; rcases hs with rfl | rfl <;> assumption) _
+    rw [NmVerif.Props.C06.broadcast_pair]; exact hbr
+  obtain ⟨d, hd1, hd2, hd3⟩ := bin_spec sub (lift a) (lift b) (lead ++ [D]) hpa hpb hbr
+  have hden : Den (un pre (un (fun t => add t eps) d)) (lead ++ [D]) (fun i =>
+      pre (add (sub (a.get (specBroadcastIdx a.shape i)) (b.get (specBroadcastIdx b.shape i))) eps)) := by
+    refine ⟨hd2, fun i hi => ?_⟩
+    show ((d.get i).map _).map pre = _
+    rw [hd3 i hi]
+    rfl
+  obtain ⟨v, hv1, hv2, hv3⟩ := red_last add hden hpr keep
+  refine ⟨un post v, by simp only [pairwiseDistance, hd1, Option.bind_some, vectorNormO, hv1, Option.map_some], hv2, fun p hp => ?_⟩
+  show (v.get _).map post = _
+  rw [hv3 p hp]
+
+/-- non-vacuity: `(2,3)` against `(3)` broadcasts to `[2] ++ [3]`; row 1 of the first operand against the second -/
+example : Pos [2, 3] ∧ Pos [3] ∧ broadcastShape2 [2, 3] [3] = some ([2] ++ [3]) ∧
+    specBroadcastIdx [2, 3] ([1] ++ [2]) = [1, 2] ∧ specBroadcastIdx [3] ([1] ++ [2]) = [2] := by decide
+
+example :
+    let a : Arr Int := ⟨[2, 3], fun d => match d with | [r, c] => (3 * r + c : Nat) | _ => 0⟩
+    let b : Arr Int := ⟨[3], fun _ => 1⟩
+    (pairwiseDistance (· + ·) (· - ·) (fun t => t * t) id 0 a b false).map (fun v => (v.shape, (allIdx v.shape).map v.get))
+      = some ([2], [some ((0-1)*(0-1) + (1-1)*(1-1) + (2-1)*(2-1)), some ((3-1)*(3-1) + (4-1)*(4-1) + (5-1)*(5-1))]) := by decide
+
+/-- **instance_norm** (1d / 2d / 3d are `ND = |sp|` = 1, 2, 3; the statement holds for every number of spatial axes):
+    input `(N, C) ++ sp`, weight and bias `(C)`.  The statistics of the element `[n, c] ++ q` are taken over exactly the
+    spatial block of its own sample and channel — the `∏ sp` elements `x[n, c, r]`, `r` over all of `sp` in row-major
+    order — and the affine parameters are those of channel `c` (moved to axis `−ND−1` by `atleast_nd` + `moveaxis`):
+    `((x[n,c,q] − μ) / sqrt(V/|sp| + eps)) · w[c] + b[c]`. -/
+theorem instance_norm_eq_def {α : Type} (add sub mul div : α → α → α) (sqabs sqrt : α → α) (divn : α → Nat → α) (eps : α)
+    (x w b : Arr α) (N C : Nat) (sp : Shape) (hx : x.shape = [N, C] ++ sp) (hw : w.shape = [C]) (hb : b.shape = [C])
+    (hp : Pos ([N, C] ++ sp)) :
+    ∃ v, instanceNorm add sub mul div sqabs sqrt divn eps x w b sp.length = some v ∧ v.shape = [N, C] ++ sp ∧
+      ∀ n c q, n < N → c < C → InShape q sp →
+        (v.get ([n, c] ++ q) = (normAt add sub div sqabs sqrt divn eps x.get ((allIdx sp).map ([n, c] ++ ·)) ([n, c] ++ q)).map
+          fun y => add (mul y (w.get [c])) (b.get [c])) ∧
+        ∃ y, v.get ([n, c] ++ q) = some y := by
+  obtain ⟨w', hw1, hw2, hw3⟩ := chanParam_spec w C sp.length hw
+  obtain ⟨b', hb1, hb2, hb3⟩ := chanParam_spec b C sp.length hb
+  obtain ⟨nrm, hn1, hn2, hn3⟩ := normCore_trailing add sub div sqabs sqrt divn eps x [N, C] sp hx hp
+  obtain ⟨pm, hm1, hm2, hm3⟩ := bin_chanN mul nrm w' (fun c => w.get [c]) N C sp hp hn2 hw2 hw3
+  obtain ⟨v, ha1, ha2, ha3⟩ := bin_chanN add pm b' (fun c => b.get [c]) N C sp hp hm2 hb2 hb3
+  refine ⟨v, by simp only [instanceNorm, hw1, hb1, hn1, hm1, Option.bind_some]; exact ha1, ha2, fun n c q hn hc hq => ?_⟩
+  have hnc : InShape [n, c] [N, C] := by simp [InShape]; exact ⟨hn, hc⟩
+  have hval : v.get ([n, c] ++ q) = (normAt add sub div sqabs sqrt divn eps x.get ((allIdx sp).map ([n, c] ++ ·)) ([n, c] ++ q)).map
+      fun y => add (mul y (w.get [c])) (b.get [c]) := by
+    rw [ha3 n c q hn hc hq, hm3 n c q hn hc hq, hn3 [n, c] q hnc hq, Option.map_map]
+    rfl
+  refine ⟨hval, ?_⟩
+  have hne : (allIdx sp).map ([n, c] ++ ·) ≠ [] := by
+    have hq' := (NmVerif.Props.C01.mem_allIdx_iff sp q).2 hq
+    intro h
+    have := List.mem_map_of_mem (f := ([n, c] ++ ·)) hq'
+    rw [h] at this
+    simp at this
+  obtain ⟨y, hy⟩ := normAt_defined add sub div sqabs sqrt divn eps x.get ([n, c] ++ q) hne
+  exact ⟨_, by rw [hval, hy]; rfl⟩
+
+/-- non-vacuity (2d): input (2,3,2,2), element `[1,2] ++ [0,1]` takes its statistics over the four `[1,2,r₀,r₁]` -/
+example : Pos ([2, 3] ++ [2, 2]) ∧ InShape [0, 1] [2, 2] ∧
+    (allIdx [2, 2]).map ([1, 2] ++ ·) = [[1, 2, 0, 0], [1, 2, 0, 1], [1, 2, 1, 0], [1, 2, 1, 1]] := by decide
+
+/-- the channel-splitting index map of `group_norm`'s reshape: `[n, g, j] ++ r ↦ [n, g·cg + j] ++ r` -/
+def mergeChan (cg : Nat) : Idx → Idx
+  | n :: g :: j :: r => [n, g * cg + j] ++ r
+  | d => d
+
+/-- **group_norm**: input `(N, G·cg) ++ sp` (`G` groups of `cg` consecutive channels, any spatial axes, possibly none),
+    weight and bias `(G·cg)`.  The composition (reshape to `(N, G, cg) ++ sp`, mean / var over the axes `2 ..` with
+    keepdims, normalise, reshape back, per-channel weight and bias reshaped to `(1, C, 1, …, 1)`) exists, keeps the
+    shape, and the element `[n, c] ++ q` is `((x[n,c,q] − μ) / sqrt(V/m + eps)) · w[c] + b[c]` with the statistics taken
+    over exactly the `m = cg · ∏ sp` elements `x[n, (c / cg)·cg + j, r]`, `j < cg`, `r` over `sp` — the channels of the
+    group `c / cg` of sample `n`, in row-major order (PyTorch's consecutive-channel groups). -/
+theorem group_norm_eq_def {α : Type} (add sub mul div : α → α → α) (sqabs sqrt : α → α) (divn : α → Nat → α) (eps : α)
+    (x w b : Arr α) (N G cg : Nat) (sp : Shape) (hx : x.shape = [N, G * cg] ++ sp) (hw : w.shape = [G * cg])
+    (hb : b.shape = [G * cg]) (hp : Pos ([N, G * cg] ++ sp)) :
+    ∃ v, groupNorm add sub mul div sqabs sqrt divn eps x w b G = some v ∧ v.shape = [N, G * cg] ++ sp ∧
+      ∀ n c q, n < N → c < G * cg → InShape q sp →
+        (v.get ([n, c] ++ q) = (normAt add sub div sqabs sqrt divn eps x.get
+            ((List.range cg).flatMap fun j => (allIdx sp).map fun r => [n, c / cg * cg + j] ++ r) ([n, c] ++ q)).map
+          fun y => add (mul y (w.get [c])) (b.get [c])) ∧
+        ∃ y, v.get ([n, c] ++ q) = some y := by
+  have hC : 0 < G * cg := hp _ (by simp)
+  have hG : 0 < G := Nat.pos_of_mul_pos_right hC
+  have hcg : 0 < cg := Nat.pos_of_mul_pos_left hC
+  have hN : 0 < N := hp _ (by simp)
+  have hpsp : Pos sp := fun z hz => hp z (by simp [hz])
+  have hxl : x.shape.length = 2 + sp.length := by rw [hx]; simp; omega
+  -- the reshapes
+  obtain ⟨xg, hg1, hg2, hg3⟩ := reshape_split x N G cg sp hx
+  obtain ⟨w', hw1, hw2, hw3⟩ := reshape_1C w (G * cg) sp.length hw
+  obtain ⟨b', hb1, hb2, hb3⟩ := reshape_1C b (G * cg) sp.length hb
+  have hgs : groupNormReshape x.shape G = some ([N, G, cg] ++ sp) := by
+    rw [hx]
+    simp only [List.cons_append, List.nil_append, groupNormReshape, if_neg (Nat.pos_iff_ne_zero.1 hG),
+      Nat.mul_div_cancel_left cg hG]
+  have hws : groupNormArgsReshape x.shape w.shape = some ((List.replicate (2 + sp.length) 1).set 1 (prod w.shape)) := by
+    simp only [groupNormArgsReshape, hxl]; rw [if_neg (by omega)]
+  have hbs : groupNormArgsReshape x.shape w.shape = some ((List.replicate (2 + sp.length) 1).set 1 (prod b.shape)) := by
+    rw [hws, hw, hb]
+  -- statistics over the axes 2.. of the reshaped input
+  have hax : groupNormAxis x.shape = (List.range (1 + sp.length)).map fun (i : Nat) => ((i + 2 : Nat) : Int) := by
+    simp only [groupNormAxis, hxl]; congr 2; omega
+  have hpg : Pos ([N, G] ++ cg :: sp) := by
+    intro z hz
+    simp only [List.cons_append, List.nil_append, List.mem_cons] at hz
+    rcases hz with rfl | rfl | rfl | hz
+    · exact hN
+    · exact hG
+    · exact hcg
+    · exact hpsp z hz
+  have hgl : xg.shape.length = 3 + sp.length := by rw [hg2]; simp; omega
+  obtain ⟨hva, hR⟩ := groupNormAxis_valid sp.length
+  obtain ⟨nrm, hn1, hn2, hn3⟩ := normCore_block add sub div sqabs sqrt divn eps xg [N, G] (cg :: sp) (groupNormAxis x.shape)
+    hg2 hpg (by rw [hgl, hax]; exact hva) (by rw [hgl, hax, hR]; simp [Nat.add_comm])
+  obtain ⟨nr, hr1, hr2, hr3⟩ := reshape_merge nrm N G cg sp hn2 hcg
+  obtain ⟨pm, hm1, hm2, hm3⟩ := bin_1C mul nr w' (fun c => w.get [c]) N (G * cg) sp hp hr2 hw2 hw3
+  obtain ⟨v, ha1, ha2, ha3⟩ := bin_1C add pm b' (fun c => b.get [c]) N (G * cg) sp hp hm2 hb2 hb3
+  refine ⟨v, ?_, ha2, fun n c q hn hc hq => ?_⟩
+  · simp only [groupNorm, hgs, hws, Option.bind_some, hg1, hw1]
+    rw [show (List.replicate (2 + sp.length) 1).set 1 (prod w.shape) = (List.replicate (2 + sp.length) 1).set 1 (prod b.shape) by rw [hw, hb],
+      hb1]
+    simp only [Option.bind_some, hn1]
+    rw [← hx] at hr1
+    simp only [hr1, Option.bind_some, hm1]
+    exact ha1
+  · have hgc : c / cg < G := by apply Nat.div_lt_of_lt_mul; rw [Nat.mul_comm]; exact hc
+    have hjc : c % cg < cg := Nat.mod_lt _ hcg
+    have hc' : c / cg * cg + c % cg = c := by rw [Nat.mul_comm]; exact Nat.div_add_mod c cg
+    have hng : InShape [n, c / cg] [N, G] := by simp [InShape]; exact ⟨hn, hgc⟩
+    have hjq : InShape (c % cg :: q) (cg :: sp) := ⟨hjc, hq⟩
+    have hnorm := hn3 [n, c / cg] (c % cg :: q) hng hjq
+    -- translate the statistics of the reshaped input back to `x`
+    have htr := normAt_congr add sub div sqabs sqrt divn eps xg.get x.get (mergeChan cg)
+      ((allIdx (cg :: sp)).map ([n, c / cg] ++ ·)) ([n, c / cg] ++ c % cg :: q)
+      (by
+        intro k hk
+        simp only [List.mem_map] at hk
+        obtain ⟨jr, hjr, rfl⟩ := hk
+        have hjr' := (NmVerif.Props.C01.mem_allIdx_iff (cg :: sp) jr).1 hjr
+        cases jr with
+        | nil => simp [InShape] at hjr'
+        | cons j r => exact hg3 n (c / cg) j r hn hgc hjr'.1 hjr'.2)
+      (hg3 n (c / cg) (c % cg) q hn hgc hjc hq)
+    have hmapG : ((allIdx (cg :: sp)).map ([n, c / cg] ++ ·)).map (mergeChan cg)
+        = (List.range cg).flatMap fun j => (allIdx sp).map fun r => [n, c / cg * cg + j] ++ r := by
+      simp only [allIdx, List.map_flatMap, List.map_map]
+      rfl
+    have hτi : mergeChan cg ([n, c / cg] ++ c % cg :: q) = [n, c] ++ q := by
+      show [n, c / cg * cg + c % cg] ++ q = _
+      rw [hc']
+    rw [htr, hmapG, hτi] at hnorm
+    have hval : v.get ([n, c] ++ q) = (normAt add sub div sqabs sqrt divn eps x.get
+        ((List.range cg).flatMap fun j => (allIdx sp).map fun r => [n, c / cg * cg + j] ++ r) ([n, c] ++ q)).map
+          fun y => add (mul y (w.get [c])) (b.get [c]) := by
+      rw [ha3 n c q hn hc hq, hm3 n c q hn hc hq, hr3 n c q hn hc hq]
+      show ((nrm.get ([n, c / cg] ++ c % cg :: q)).map _).map _ = _
+      rw [hnorm, Option.map_map]
+      rfl
+    refine ⟨hval, ?_⟩
+    have hne : ((List.range cg).flatMap fun j => (allIdx sp).map fun r => [n, c / cg * cg + j] ++ r) ≠ [] := by
+      rw [← hmapG]
+      have hq' := (NmVerif.Props.C01.mem_allIdx_iff (cg :: sp) (c % cg :: q)).2 hjq
+      intro h
+      have := List.mem_map_of_mem (f := mergeChan cg) (List.mem_map_of_mem (f := ([n, c / cg] ++ ·)) hq')
+      rw [h] at this
+      simp at this
+    obtain ⟨y, hy⟩ := normAt_defined add sub div sqabs sqrt divn eps x.get ([n, c] ++ q) hne
+    exact ⟨_, by rw [hval, hy]; rfl⟩
+
+/-- non-vacuity: C = 4 = 2·2, spatial (2): element `[0, 3] ++ [1]` (group 1) takes its statistics over
+    `x[0,2,·]` and `x[0,3,·]` -/
+example : Pos ([1, 2 * 2] ++ [2]) ∧ 3 < 2 * 2 ∧ InShape [1] [2] ∧
+    ((List.range 2).flatMap fun j => (allIdx [2]).map fun r => [0, 3 / 2 * 2 + j] ++ r) = [[0, 2, 0], [0, 2, 1], [0, 3, 0], [0, 3, 1]] := by
+  decide
+
+/-! ## cosine_similarity -/
+
+open NmVerif.Reduce in
+/-- **cosine_similarity over any axis** (negative included) of operands that broadcast to `r`: the composition
+    (`broadcast_arrays`, two keepdims `vector_norm`s clamped by `maximum(·, eps)`, `multiply`, `divide`, `sum` over the
+    axis) exists, has the shape `r` without the axis, and the element at `j` is
+    `Σ_{i ∈ L} (a[i]·b[i]) / (max(‖a‖_L, eps) · max(‖b‖_L, eps))`, where `L` is `j` with the coordinate `0 .. n−1`
+    inserted at the axis (exactly the line of `j`, in order) and `‖a‖_L = post(Σ_{i ∈ L} pre(a[i]))` is taken over that
+    same line (`pre x = |x|²`, `post = sqrt`, abstract here); operands read at their NumPy broadcast positions. -/
+theorem cosine_similarity_eq_def {α : Type} (add mul div mx : α → α → α) (pre post : α → α) (eps : α) (x y : Arr α)
+    (r : Shape) (axis : Int) (n : Nat) (hx : Pos x.shape) (hy : Pos y.shape)
+    (hr : broadcastShape2 x.shape y.shape = some r) (hv : ValidAxis r.length axis)
+    (hn : r[normAxis r.length axis]? = some n) :
+    ∃ v, cosineSimilarity add mul div mx pre post eps x y axis = some v ∧
+      v.shape = specShape r [normAxis r.length axis] false ∧
+      ∀ j, InShape j (specShape r [normAxis r.length axis] false) →
+        v.get j =
+          (foldFirst add none (((List.range n).map (insAt j (normAxis r.length axis) ·)).map fun i =>
+              pre (x.get (specBroadcastIdx x.shape i)))).bind fun SA =>
+          (foldFirst add none (((List.range n).map (insAt j (normAxis r.length axis) ·)).map fun i =>
+              pre (y.get (specBroadcastIdx y.shape i)))).bind fun SB =>
+          foldFirst add none (((List.range n).map (insAt j (normAxis r.length axis) ·)).map fun i =>
+            div (mul (x.get (specBroadcastIdx x.shape i)) (y.get (specBroadcastIdx y.shape i)))
+              (mul (mx (post SA) eps) (mx (post SB) eps))) :=
+  cosine_core add mul div mx pre post eps x y r axis n hx hy hr hv hn
+
+/-- non-vacuity: `(2,3)` with `(3)` (broadcast), axis −1: result shape `(2)`, the line of `[1]` is `[1,0], [1,1], [1,2]` -/
+example : Pos [2, 3] ∧ Pos [3] ∧ broadcastShape2 [2, 3] [3] = some [2, 3] ∧ Reduce.ValidAxis 2 (-1) ∧
+    [2, 3][Reduce.normAxis 2 (-1)]? = some 3 ∧ Reduce.specShape [2, 3] [Reduce.normAxis 2 (-1)] false = [2] ∧
+    (List.range 3).map (insAt [1] (Reduce.normAxis 2 (-1)) ·) = [[1, 0], [1, 1], [1, 2]] := by decide
+
+/-- … and axis 0 of a `(2,3)` pair: the line of `[2]` is `[0,2], [1,2]` -/
+example : Reduce.specShape [2, 3] [Reduce.normAxis 2 0] false = [3] ∧
+    (List.range 2).map (insAt [2] (Reduce.normAxis 2 0) ·) = [[0, 2], [1, 2]] := by decide
+
+example :
+    let a : Arr Int := ⟨[2, 2], fun d => match d with | [r, c] => (2 * r + c + 1 : Nat) | _ => 0⟩
+    (cosineSimilarity (· + ·) (· * ·) (· / ·) Reduce.maximum (fun t => t * t) id 1 a a 1).map
+        (fun v => (v.shape, (allIdx v.shape).map v.get))
+      = some ([2], [some (1 * 1 / (5 * 5) + 2 * 2 / (5 * 5)), some (3 * 3 / (25 * 25) + 4 * 4 / (25 * 25))]) := by decide
+
+open NmVerif.Reduce in
+/-- for element operations with `a/c + b/c = (a+b)/c` (real arithmetic) this is PyTorch's
+    `(Σ_L a·b) / (max(‖a‖, eps) · max(‖b‖, eps))` -/
+theorem cosine_similarity_eq_textbook {α : Type} (add mul div mx : α → α → α) (pre post : α → α) (eps : α) (x y : Arr α)
+    (r : Shape) (axis : Int) (n : Nat) (hx : Pos x.shape) (hy : Pos y.shape)
+    (hr : broadcastShape2 x.shape y.shape = some r) (hv : ValidAxis r.length axis)
+    (hn : r[normAxis r.length axis]? = some n)
+    (hadd : ∀ a b c, add (div a c) (div b c) = div (add a b) c) :
+    ∃ v, cosineSimilarity add mul div mx pre post eps x y axis = some v ∧
+      ∀ j, InShape j (specShape r [normAxis r.length axis] false) →
+        v.get j =
+          (foldFirst add none (((List.range n).map (insAt j (normAxis r.length axis) ·)).map fun i =>
+              pre (x.get (specBroadcastIdx x.shape i)))).bind fun SA =>
+          (foldFirst add none (((List.range n).map (insAt j (normAxis r.length axis) ·)).map fun i =>
+              pre (y.get (specBroadcastIdx y.shape i)))).bind fun SB =>
+          (foldFirst add none (((List.range n).map (insAt j (normAxis r.length axis) ·)).map fun i =>
+            mul (x.get (specBroadcastIdx x.shape i)) (y.get (specBroadcastIdx y.shape i)))).map
+              (div · (mul (mx (post SA) eps) (mx (post SB) eps))) := by
+  obtain ⟨v, h1, _, h3⟩ := cosine_core add mul div mx pre post eps x y r axis n hx hy hr hv hn
+  refine ⟨v, h1, fun j hj => ?_⟩
+  rw [h3 j hj]
+  congr 1; funext SA; congr 1; funext SB
+  rw [← foldFirst_div_distrib add div _ (fun a b => hadd a b _)]
+  simp only [List.map_map]
+  rfl
+
+/-! ## bilinear -/
+
+/-- known finding bilinear.lead-axes: inputs `(2,2,2,2)` (`a[k] = b[k] = k+1` row-major), weight `(2,2,2)` (`w[k] = k+1`).
+    `bilinear_input_reshape` gives `(2,1,2,2,2)` — the unit axis after the first axis — so the second batch axis is
+    broadcast against `out_features`: the result has the shape `(2,1,2,2)` instead of PyTorch's `(2,2,2,2)`, and e.g. its
+    second element is `803` where `y[0,0,0,1] = Σ_ij a[0,0,0,i]·w[1,i,j]·b[0,0,0,j] = 63`.  The repaired reshape
+    (`bilinearInputReshapeFixed`, fixes/C17-bilinear-lead-axes.diff) gives `(2,2,1,2,2)`; both agree up to rank 3. -/
+theorem bilinear_rank4_counterexample :
+    let a : Arr Int := ⟨[2, 2, 2, 2], fun d => (computeOffset d (strides [2, 2, 2, 2]) + 1 : Nat)⟩
+    let w : Arr Int := ⟨[2, 2, 2], fun d => (computeOffset d (strides [2, 2, 2]) + 1 : Nat)⟩
+    (bilinear (· + ·) (· * ·) a a w none).map (fun v => (v.shape, v.get [0, 0, 0, 1])) = some ([2, 1, 2, 2], some 803)
+      ∧ (1 * 5 * 1 + 1 * 6 * 2 + 2 * 7 * 1 + 2 * 8 * 2 : Int) = 63
+      ∧ bilinearInputReshape [2, 2, 2, 2] = some [2, 1, 2, 2, 2]
+      ∧ bilinearInputReshapeFixed [2, 2, 2, 2] = some [2, 2, 1, 2, 2]
+      ∧ (∀ s ∈ [[3], [2, 3], [4, 2, 3], [1, 1, 1]], bilinearInputReshape s = bilinearInputReshapeFixed s) := by
+  decide
+
+/-- positive instance (rank 3, bias): `y[1,0,1] = Σ_ij a[1,0,i]·w[1,i,j]·b[1,0,j] + c[1]` -/
+example :
+    let a : Arr Int := ⟨[2, 1, 2], fun d => (computeOffset d (strides [2, 1, 2]) + 1 : Nat)⟩
+    let w : Arr Int := ⟨[2, 2, 2], fun d => (computeOffset d (strides [2, 2, 2]) + 1 : Nat)⟩
+    let c : Arr Int := ⟨[2], fun d => match d with | [o] => (100 * (o + 1) : Nat) | _ => 0⟩
+    (bilinear (· + ·) (· * ·) a a w (some c)).map (fun v => (v.shape, v.get [1, 0, 1]))
+      = some ([2, 1, 2], some (3 * 5 * 3 + 3 * 6 * 4 + 4 * 7 * 3 + 4 * 8 * 4 + 200)) := by
+  decide
+
+/-- **bilinear on rank-2 inputs** `x : (B, I)`, `y : (B, J)`, weight `(O, I, J)`, optional bias `(O)`, any positive extents,
+    abstract `add` / `mul`: the composition (`matmulv2` of `x` with the weight stack — C16 model —, broadcast `multiply`
+    with `y`, `sum` over the last axis, `transpose`, bias) exists, has the shape `(B, O)`, and
+    `out[b, o] = Σ_j (Σ_i x[b,i]·w[o,i,j]) · y[b,j] (+ c[o])` — `bilinearAt`: every inner sum is a left fold over
+    `i = 0 .. I−1` from its first product, the outer one over `j = 0 .. J−1`; the bias is added to the finished sum.
+    (Other ranks: compared with the real code and the oracle on every run; rank ≥ 4: `bilinear_rank4_counterexample`.) -/
+theorem bilinear_rank2_eq_def {α : Type} (add mul : α → α → α) (x y w : Arr α) (bias : Option (Arr α)) (B I J O : Nat)
+    (hx : x.shape = [B, I]) (hy : y.shape = [B, J]) (hw : w.shape = [O, I, J]) (hb : ∀ c, bias = some c → c.shape = [O])
+    (hB : 0 < B) (hI : 0 < I) (hJ : 0 < J) (hO : 0 < O) :
+    ∃ v, bilinear add mul x y w bias = some v ∧ v.shape = [B, O] ∧ ∀ b o, b < B → o < O →
+      v.get [b, o] = match bias with
+        | none => bilinearAt add mul x.get y.get w.get I J b o
+        | some c => (bilinearAt add mul x.get y.get w.get I J b o).map (fun S => add S (c.get [o])) :=
+  bilinear_rank2 add mul x y w bias B I J O hx hy hw hb hB hI hJ hO
+
+/-- non-vacuity: `x = [[1,2]]`, `y = [[3,4,5]]`, `w[o,i,j] = 1`: `out[0,0] = (1+2)·3 + (1+2)·4 + (1+2)·5` -/
+example :
+    bilinearAt (· + ·) (· * ·) (fun d => match d with | [_, i] => ((i + 1 : Nat) : Int) | _ => 0)
+      (fun d => match d with | [_, j] => ((j + 3 : Nat) : Int) | _ => 0) (fun _ => 1) 2 3 0 0 = some 36 := by decide
 
 /-! ## convolution -/
 
